@@ -2,7 +2,8 @@
   Model of class MDSDRV_Linker (/repo/src/platform/mdsdrv.cpp + mdsdrv.h) as it is after the
   `fix:` commits 795bab9 (get_seq_data keeps no state), b631743 (short ver/seq chunk),
   f4c9b9c (PCM header outside pcmd), 2e3fb5a (pointer slot outside the sequence), bbcbd9c
-  (pitch clamp before narrowing), bd33990 (identifier beginning with a digit).
+  (pitch clamp before narrowing), bd33990 (identifier beginning with a digit), 8d3c42d (sample index
+  of add_sample kept in an unsigned int).
 
   One definition per C++ function: `addSong` (chunk walk over Model/Riff, `checkVersion`, patch
   table, PCM re-homing through Model/Wave.addSample, group keying), `getSeqData` (bank layout,
@@ -19,7 +20,8 @@
   Narrowings made explicit:
     * `uint32_t addr = seq_sdata + id * 2` is `u32 (sdata + u32 (id * 2))`; it is stored in a
       `uint16_t` pair member: `% 65536`;
-    * `uint16_t offset = add_unique_data(..)` / `= wave_rom.add_sample(..)`: `% 65536`;
+    * `uint16_t offset = add_unique_data(..)`: `% 65536` (the result of `wave_rom.add_sample(..)` is an
+      `unsigned int` since fix 8d3c42d and indexes the headers as it is);
     * `data_offset[j.second & 0x7fff] | (j.second & 0x8000)` written by `write_be16`: low 16 bits;
     * `write_be16(data, 6, id - 1)`, the `uint16_t value` of `asm_define`/`c_define`: `% 65536`;
     * `write_be32` of offsets and `(position + start) | (cp << 24)`: `% 2^32` inside `be32`.
@@ -244,7 +246,7 @@ def addPcmh (sdata seqLen : Nat) (pcmd data : Bytes) (a : Acc) : Except Err Acc 
       match Wave.addSample a.wave { header with position := 0 } sample with
       | .error e => .error (ofWaveErr e)
       | .ok (w, sidx) =>
-        match w.samples[sidx % 65536]? with
+        match w.samples[sidx]? with
         | none => .error .outOfRange
         | some h2 =>
           let r := addUnique a.bank (pcmHeader h2)
